@@ -66,6 +66,13 @@ func (n *NetConnectionServerCommunicator) handleRequest(w dns.ResponseWriter, r 
 		return
 	}
 
+	if resp == nil {
+		// Nobody has answered: the handler is registered before the listener hands us its callback, so a query
+		// can arrive in between (a client polling a server that is just starting). There is nothing to send.
+		log.Debugf("No response prepared for %v -- will not send anything back", r.Question)
+		return
+	}
+
 	if r.IsTsig() != nil {
 		if w.TsigStatus() == nil {
 			// *Msg r has an TSIG record and it was validated
